@@ -355,6 +355,11 @@ def _untouched(shard):
                     an.compute_single_bin(0.3, L=4)
                     an.compute_single_bin(0.3, L=N)
                     an.compute()
+                    # segments that tile the record back to back (no overlap, L dividing N)
+                    an0 = ana.make_analyzer(obj, 2.0, order=order, backend=backend, **dict(KW, olap=0.0))
+                    an0.compute_single_bin(0.3, L=2)
+                    an0.compute_single_bin(0.6, L=4)
+                    an0.compute()
                 except Exception as e:  # noqa: BLE001
                     key = f"untouched/raises/{kind}/{cn}/{backend}"
                     if key not in seen:
